@@ -1416,6 +1416,7 @@ RANGE_CLASS_BY_SCHEMES = {
     "mozilla": MozillaVersionRange,
     "github": GitHubVersionRange,
     "ebuild": EbuildVersionRange,
+    "alpine": AlpineLinuxVersionRange,
     "alpm": ArchLinuxVersionRange,
     "nginx": NginxVersionRange,
     "openssl": OpensslVersionRange,
